@@ -548,8 +548,13 @@ class BuiltinMixin:
         t = recv.t
         s = recv.z
         n = z3.Length(s)
-        a = z3.Int(sym.fresh_name("strip.a")) if left else z3.IntVal(0)
-        b = z3.Int(sym.fresh_name("strip.b")) if right else n
+        # the cut points are FUNCTIONS of the string (one per mode / character set / string type): two evaluations of
+        # s.lstrip() on equal strings are the same term, no uniqueness argument is left to the solver
+        mode = ("l" if left else "") + ("r" if right else "")
+        key = f"{mode}.{'ws' if chars is None else '_'.join(map(str, chars))}.{'b' if isinstance(t, sym.TBytes) else 's'}" if hasattr(sym, "TBytes") else \
+            f"{mode}.{'ws' if chars is None else '_'.join(map(str, chars))}.{type(t).__name__}"
+        a = z3.Function(f"strip.a.{key}", s.sort(), z3.IntSort())(s) if left else z3.IntVal(0)
+        b = z3.Function(f"strip.b.{key}", s.sort(), z3.IntSort())(s) if right else n
         isw = (lambda c: is_ws(c, t)) if chars is None else (lambda c: z3.Or(*[c == x for x in chars]))
         st.assume(z3.And(a >= 0, a <= b, b <= n))
         i = z3.Int(sym.fresh_name("i"))
@@ -565,6 +570,10 @@ class BuiltinMixin:
         r = z3.SubSeq(s, a, b - a)
         st.assume(z3.Length(r) == b - a)
         return SV(t, r)
+
+    def sm_format(self, recv, args, kwargs, st, node):
+        """template.format(...): some string (havoc) - what the formatted text is is not modelled; the arguments have been evaluated."""
+        return sym.fresh(recv.t if isinstance(recv.t, TStr) else STR, "fmt")
 
     def sm_strip(self, recv, args, kwargs, st, node):
         return self._strip(recv, args, st, True, True, node)
